@@ -9,11 +9,13 @@ claim("C20",
 claim("C17",
       text="Proof for all n>=1, alpha>0, n_estimators>=0, weights: the resampling closure draws round(alpha*n) indices from exactly [0,n) "
            "(randint contract), the same index vector selects X, y and weights, one fit per cloned estimator, fit returns self; predict_all column i "
-           "is model i's prediction; predict_sorted rows are non-decreasing permutations of those predictions (loop invariants). "
-           "Bounded stand-in with a recording regressor for mean / min<=predict<=max.",
+           "is model i's prediction (also for integer / float32 query batches); predict_sorted rows are non-decreasing permutations of those predictions "
+           "(loop invariants); predict[r] is the row sum of the individual predictions divided by their number and lies between any bounds of them, "
+           "hence min <= predict <= max (ghost row sum, lemma row_mean_bounds proved in lemmas/Counting.lean). Bounded stand-in with a recording regressor.",
       note="Assumes numpy.random.randint is uniform on [low,high) and raises when high<=low, the estimator protocol (fit returns the receiver, predict is a "
-           "function of fitted state and row), numpy.sort = sorted permutation, clone = fresh unfitted copy, A8 for joblib. predict = row mean is bounded only.",
-      technique="deductive verification: contracts on the resampling closure, fit, predict_all, predict_sorted; z3")
+           "function of fitted state and row), numpy.sort = sorted permutation, numpy mean(axis=1) = row sum / number of columns, clone = fresh unfitted copy, "
+           "A8 for joblib.",
+      technique="deductive verification: contracts on the resampling closure, fit, predict_all, predict, predict_sorted; Lean-checked lemma schema; z3")
 claim("C05",
       text="Proof for all q in (0,1), data, weights: _epsilon (residual, per-sign multiplier), score = twice the (weighted) mean pinball loss of the model's own "
            "quantile / mean_absolute_error at q=0.5 (ghost Sum congruence), compute_z = IRLS weight (1-mult)/max(|res|,delta) with the asymmetric weight on the "
@@ -121,7 +123,10 @@ claim("C08",
            "model per training bucket trained on its rows, the fallback on the whole set, an integer random_state (0 included) seeds the generator. "
            "Bounded: recording local estimator on 4 data sets x 4 binners (exact training sets, dispatch, unseen discretizer cells), classifier "
            "distributions/labels, n_jobs in {None,1,2,4} incl. repeated fits with borrowed examples.",
-      note="transform_bins and _mapping_train are ASSUMED (sparse decision_path / discretizer plumbing); they are exercised by the bounded stand-in only. "
+      note="transform_bins (tree and discretizer branch) is PROVED: a row's bucket id is mapping_.get(key(row), -1) with key = its tree leaf / "
+           "tuple(int32(transform(row))). _mapping_train is PROVED for a tree binner (buckets 0..len-1 without repetition, every training row carries "
+           "its leaf's number, leaves_ = all leaves: the well-formedness transform_bins and predict assume); its discretizer branch is bounded only and "
+           "fit uses a 1..2-bucket summary of it. "
            "A8: joblib is modelled as a sequential map - real thread interleavings are outside this technique (one schedule-dependence was found by the "
            "bounded stand-in and repaired).",
       technique="deductive verification: mask gather/scatter lemmas (rank/unrank), Trace clauses; z3 5.1 raced with z3 4.8.12")
